@@ -44,6 +44,7 @@ impl Attribution {
 
 pub struct EvalOk {
     pub gc_forced: u64,
+    pub audit_budget_exhausted: bool,
     pub gc_freed_nonzero: u64,
     pub gc_policy_calls: u64,
     pub audits: u64,
@@ -178,6 +179,7 @@ pub fn evaluate(case: &Case, attr: Attribution) -> EvalOut {
     }
     EvalOut::Ok(EvalOk {
         gc_forced: run.gc_forced,
+        audit_budget_exhausted: run.audit_budget_exhausted,
         gc_freed_nonzero: run.gc_freed_nonzero,
         gc_policy_calls: run.gc_policy_calls,
         audits: run.audit_count,
@@ -389,6 +391,9 @@ pub fn batch(
         ev.count(&format!("runs_workload_{}", wl_class), 1);
         for (ok, family) in r.ok {
             ev.fault("gc_forced", ok.gc_forced);
+            if ok.audit_budget_exhausted {
+                ev.count("schedules_truncated_by_audit_budget", 1);
+            }
             ev.fault("gc_policy_call", ok.gc_policy_calls);
             ev.fault("gc_freed_nonzero", ok.gc_freed_nonzero);
             ev.count("audits", ok.audits);
